@@ -20,13 +20,19 @@ ModesK == {<<"search", "closest">>, <<"search", "lower">>, <<"search", "higher">
 
 X == IntSeq(xs)
 \* reference abscissae: the fixed samples shifted by d quarters (d = -2: exactly half-way to the lower neighbour on unit gaps)
-XRef == [k \in 1..Len(cfgm.fs) |-> RAdd(X[cfgm.fs[k] + 1], RNorm(cfgm.d, 4))]
+\* For explicitly designated fixed points the reference may have MORE points than there are fixed points: one beyond the
+\* last fixed sample ("tail": the reference continues past the last window) or one between the first two ("mid": the first
+\* window corresponds to two reference intervals whose integrals are summed).
+XRefBase == [k \in 1..Len(cfgm.fs) |-> RAdd(X[cfgm.fs[k] + 1], RNorm(cfgm.d, 4))]
+XRef == CASE cfgm.extra = "tail" -> Append(XRefBase, RAdd(Last(X), RInt(1)))
+          [] cfgm.extra = "mid" -> <<XRefBase[1], RAdd(X[cfgm.fs[1] + 2], <<1, 4>>)>> \o SubSeqR(XRefBase, 2, Len(XRefBase))
+          [] OTHER -> XRefBase
 Given == IF cfgm.mode = "positions" THEN [k \in 1..Len(cfgm.fs) |-> X[cfgm.fs[k] + 1]]
          ELSE IF cfgm.mode = "indices" THEN cfgm.fs ELSE <<>>
 YPat(p) == IF p = 1 THEN [i \in 1..Len(xs) |-> RInt(IF Mod(i, 2) = 0 THEN 3 ELSE -2)]
            ELSE [i \in 1..Len(xs) |-> RInt(i - 2)]
-RPat(p) == IF p = 1 THEN [k \in 1..Len(cfgm.fs) |-> RInt(IF k = 2 THEN 3 ELSE 1)]
-           ELSE [k \in 1..Len(cfgm.fs) |-> RNorm(5 - 4 * k, 2)]
+RPat(p) == IF p = 1 THEN [k \in 1..Len(XRef) |-> RInt(IF k = 2 THEN 3 ELSE 1)]
+           ELSE [k \in 1..Len(XRef) |-> RNorm(5 - 4 * k, 2)]
 Fp == FixedPoints(X, XRef, cfgm.mode, cfgm.strategy, Given)
 Tg(p) == Targets(XRef, RPat(p.rp), p.rrule, Fp.refidx)
 InScopeCfg == ~NotSamples(X, XRef, cfgm.mode, cfgm.strategy, Given) /\ InScope(Fp)
@@ -35,8 +41,11 @@ Init == /\ xs \in Grids
         /\ cfgm = [k |-> "none"] /\ par = [k |-> "none"] /\ out = <<>>
 ChooseCfg ==
     /\ cfgm.k = "none"
-    /\ \E fs \in FixSets(Len(xs)), d \in {-2, -1, 0, 1}, mk \in ModesK :
-          cfgm' = [k |-> "cfg", fs |-> SetToSeq(fs), d |-> d, mode |-> mk[1], strategy |-> mk[2]]
+    /\ \E fs \in FixSets(Len(xs)), d \in {-2, -1, 0, 1}, mk \in ModesK, ex \in {"none", "tail", "mid"} :
+          /\ (mk[1] = "search" => ex = "none")                                   \* every reference point selects a fixed point there
+          /\ (mk[1] # "search" => d \in {0, 1})
+          /\ (ex = "mid" => \A i \in fs : \A j \in fs : i < j => j - i >= 2)
+          /\ cfgm' = [k |-> "cfg", fs |-> SetToSeq(fs), d |-> d, mode |-> mk[1], strategy |-> mk[2], extra |-> ex]
     /\ UNCHANGED <<xs, par, out>>
 ChoosePar ==
     /\ cfgm.k = "cfg" /\ par.k = "none"
